@@ -23,10 +23,10 @@ const (
 )
 
 type Obligation struct {
-	Rule   string `json:"rule"`   // clause id, e.g. C14-K1
-	Key    string `json:"key"`    // rule + function + construct descriptor; never a line number
-	Pos    string `json:"pos"`    // file:line:col (informational)
-	Status Status `json:"status"` //
+	Rule   string `json:"rule"`             // clause id, e.g. C14-K1
+	Key    string `json:"key"`              // rule + function + construct descriptor; never a line number
+	Pos    string `json:"pos"`              // file:line:col (informational)
+	Status Status `json:"status"`           //
 	By     string `json:"by,omitempty"`     // discharge rule / ledger id
 	Detail string `json:"detail,omitempty"` // what was seen
 	Config string `json:"config,omitempty"`
